@@ -306,13 +306,52 @@ Definition update (c : comp) (h : hasher) (data : list N) : hasher :=
   let '(cnt, cv) := fold_left (absorb c) out (h_count h, h_cv h) in
   H b cnt cv.
 
-(** [finalize_dirty]: returns the state bytes ([transmute!(self.cv)]) *)
-Definition finalize_dirty (c : comp) (h : hasher) : list N :=
-  let count := addw 64 (addw 64 (h_count h) 1)
-                    (if Nat.leb (bb_remaining (h_buf h)) 8 then 1%N else 0%N) in
+(** [finalize_dirty]: returns the state bytes ([transmute!(self.cv)]); [count] is
+    [self.block_counter + 1 + (buffer.remaining() <= 8) as u64] *)
+Definition finalize_with (c : comp) (h : hasher) (count : N) : list N :=
   let '(_, out) := len_padding_be 8 (h_buf h) count in
   let cv := fold_left (c_tf c) out (h_cv h) in
   concat (c_of c cv).
+
+Definition extra_block (h : hasher) : N :=
+  if Nat.leb (bb_remaining (h_buf h)) 8 then 1%N else 0%N.
+
+(** release profile: [u64] arithmetic wraps *)
+Definition finalize_dirty (c : comp) (h : hasher) : list N :=
+  finalize_with c h (addw 64 (addw 64 (h_count h) 1) (extra_block h)).
+
+(** ** the same with the build profile explicit: with overflow checks on
+    ([debug = true]) [*block_counter += 1] and [block_counter + 1 + ..] panic
+    ([None]) when the [u64] overflows; without them they wrap. *)
+Definition add64_chk (debug : bool) (a b : N) : option N :=
+  if (debug && (18446744073709551616 <=? a + b)%N)%bool then None else Some (addw 64 a b).
+
+Definition absorb_chk (debug : bool) (c : comp) (st : option (N * X)) (blk : list N) : option (N * X) :=
+  match st with
+  | None => None
+  | Some (cnt, cv) =>
+      match add64_chk debug cnt 1 with
+      | None => None
+      | Some cnt' => Some (cnt', c_tf c cv blk)
+      end
+  end.
+
+Definition update_chk (debug : bool) (c : comp) (h : hasher) (data : list N) : option hasher :=
+  let '(b, out) := input_block (h_buf h) data in
+  match fold_left (absorb_chk debug c) out (Some (h_count h, h_cv h)) with
+  | None => None
+  | Some (cnt, cv) => Some (H b cnt cv)
+  end.
+
+Definition finalize_chk (debug : bool) (c : comp) (h : hasher) : option (list N) :=
+  match add64_chk debug (h_count h) 1 with
+  | None => None
+  | Some c1 =>
+      match add64_chk debug c1 (extra_block h) with
+      | None => None
+      | Some count => Some (finalize_with c h count)
+      end
+  end.
 
 (** [finalize_into_dirty]: the output words are [result[bits/128..]] written
     with [to_le_bytes]; on the little-endian host [transmute!] followed by
